@@ -220,6 +220,24 @@ impl Property for C10 {
                             check_tiling("earcut", &c.g, &rings, obs, &ctx);
                         }
                         stitch_check("earcut", &ts, want_area, obs);
+                        // the iterator and raw forms describe the same triangles
+                        if let Ok((it, raw)) = guard(std::panic::AssertUnwindSafe(|| (gp.earcut_triangles_iter().collect::<Vec<_>>(), gp.earcut_triangles_raw()))) {
+                            obs.expect(it == ts, "earcut|iter-differs", || ctx());
+                            let v = |i: usize| geo::Coord { x: raw.vertices[2 * i], y: raw.vertices[2 * i + 1] };
+                            let ok = raw.vertices.len() % 2 == 0
+                                && raw.triangle_indices.len() == 3 * ts.len()
+                                && raw.triangle_indices.iter().all(|i| 2 * i + 1 < raw.vertices.len())
+                                && {
+                                    // (the iterator pops from the back of the index list: same triangles, other order)
+                                    let key = |t: [geo::Coord<f64>; 3]| { let mut a = t.map(|c| (c.x.to_bits(), c.y.to_bits())); a.sort(); a };
+                                    let mut x: Vec<_> = raw.triangle_indices.chunks(3).map(|ix| key([v(ix[0]), v(ix[1]), v(ix[2])])).collect();
+                                    let mut y: Vec<_> = ts.iter().map(|t| key(t.to_array())).collect();
+                                    x.sort();
+                                    y.sort();
+                                    x == y
+                                };
+                            obs.expect(ok, "earcut|raw-differs", || format!("raw {:?} vs {:?}; {}", raw.triangle_indices, ts, ctx()));
+                        }
                     }
                     Err(pn) => obs.fail(format!("earcut|panic|{}", pn.site()), format!("{} {}", pn, ctx())),
                 }
@@ -242,6 +260,45 @@ impl Property for C10 {
                 (Geometry::MultiPolygon(p), _) => p.unconstrained_triangulation(),
                 _ => unreachable!(),
             }));
+            // the deprecated TriangulateSpade trait and the Vec<Polygon> / &[Polygon] receivers triangulate the same region
+            if let Ok(Ok(ts)) = &r {
+                #[allow(deprecated)]
+                let alt = guard(std::panic::AssertUnwindSafe(|| {
+                    let cfg = || geo::triangulate_spade::SpadeTriangulationConfig { snap_radius: config.snap_radius };
+                    use geo::triangulate_spade as ts_old;
+                    let members: Vec<Polygon<f64>> = match &gg { Geometry::Polygon(p) => vec![p.clone()], Geometry::MultiPolygon(mp) => mp.0.clone(), _ => vec![] };
+                    let old = match (&gg, *name) {
+                        (Geometry::Polygon(p), "constrained") => ts_old::TriangulateSpade::constrained_triangulation(p, cfg()),
+                        (Geometry::Polygon(p), "constrained_outer") => ts_old::TriangulateSpade::constrained_outer_triangulation(p, cfg()),
+                        (Geometry::Polygon(p), _) => ts_old::TriangulateSpade::unconstrained_triangulation(p),
+                        (Geometry::MultiPolygon(p), "constrained") => ts_old::TriangulateSpade::constrained_triangulation(p, cfg()),
+                        (Geometry::MultiPolygon(p), "constrained_outer") => ts_old::TriangulateSpade::constrained_outer_triangulation(p, cfg()),
+                        (Geometry::MultiPolygon(p), _) => ts_old::TriangulateSpade::unconstrained_triangulation(p),
+                        _ => unreachable!(),
+                    };
+                    let dcfg = || DelaunayTriangulationConfig { snap_radius: config.snap_radius };
+                    let (vecr, slicer) = match *name {
+                        "constrained" => (members.clone().constrained_triangulation(dcfg()), members.as_slice().constrained_triangulation(dcfg())),
+                        "constrained_outer" => (members.clone().constrained_outer_triangulation(dcfg()), members.as_slice().constrained_outer_triangulation(dcfg())),
+                        _ => (members.clone().unconstrained_triangulation(), members.as_slice().unconstrained_triangulation()),
+                    };
+                    (old.ok(), vecr.ok(), slicer.ok())
+                }));
+                match alt {
+                    Ok((old, vecr, slicer)) => {
+                        let area = |v: &Vec<Triangle<f64>>| -> f64 { v.iter().map(|t| t.unsigned_area()).sum() };
+                        let a0 = area(ts);
+                        let tol = 1e-9 * a0.abs() + 1e-12;
+                        for (what, other) in [("deprecated-TriangulateSpade", &old), ("Vec<Polygon>", &vecr), ("&[Polygon]", &slicer)] {
+                            match other {
+                                Some(o) => obs.expect(o.len() == ts.len() && (area(o) - a0).abs() <= tol, &format!("{name}:{tn}|{what}-differs"), || format!("{} triangles of area {} vs {} of area {a0}; {}", o.len(), area(o), ts.len(), ctx())),
+                                None => obs.fail(format!("{name}:{tn}|{what}-errs"), ctx()),
+                            }
+                        }
+                    }
+                    Err(pn) => obs.fail(format!("{name}:{tn}|alt-receiver-panic|{}", pn.site()), format!("{} {}", pn, ctx())),
+                }
+            }
             match r {
                 Ok(Ok(ts)) => {
                     if let Some(rings) = tri_rings(name, &ts, obs) {
@@ -288,6 +345,15 @@ impl Property for C10 {
                 }
                 if ok {
                     check_tiling(&format!("monotone:{tn}"), &c.g, &rings, obs, &ctx);
+                }
+                // the free function gives the same pieces; each piece locates points like the polygon it converts into
+                {
+                    let members: Vec<Polygon<f64>> = match &gg { Geometry::Polygon(p) => vec![p.clone()], Geometry::MultiPolygon(m) => m.0.clone(), _ => vec![] };
+                    if let Ok(pieces) = guard(std::panic::AssertUnwindSafe(|| geo::algorithm::monotone::monotone_subdivision(members))) {
+                        let a: Vec<Polygon<f64>> = pieces.iter().map(|m| m.clone().into_polygon()).collect();
+                        let b: Vec<Polygon<f64>> = mp.subdivisions().iter().map(|m| m.clone().into_polygon()).collect();
+                        obs.expect(a == b, "monotone|free-function-differs", || format!("{:?} vs {:?}; {}", a, b, ctx()));
+                    }
                 }
                 // point location through the subdivision
                 let loc = Located::new(&c.g);
